@@ -192,18 +192,25 @@ fn run_chains(r: &mut Report, p: &Progress) {
 // ------------------------------------------------------------------------------------------------ (b) voxel clustering
 type Vox = (i32, i32, i32);
 fn adjacent26(a: &Vox, b: &Vox) -> bool {
-    a != b && (a.0 - b.0).abs() <= 1 && (a.1 - b.1).abs() <= 1 && (a.2 - b.2).abs() <= 1
+    // 64-bit differences: the oracle must not overflow on coordinates near the ends of the i32 range
+    a != b && (a.0 as i64 - b.0 as i64).abs() <= 1 && (a.1 as i64 - b.1 as i64).abs() <= 1 && (a.2 as i64 - b.2 as i64).abs() <= 1
 }
-fn check_voxels(r: &mut Report, vox: &[Vox]) {
+/// `given` may list a voxel more than once (the input of the real code is a set: duplicates collapse)
+fn check_voxels(r: &mut Report, given: &[Vox]) {
     r.case();
+    let mut dedup: Vec<Vox> = given.to_vec();
+    dedup.sort();
+    dedup.dedup();
+    let vox: &[Vox] = &dedup;
     let mut d = Dsu::new(vox.len());
     for i in 0..vox.len() { for j in 0..i { if adjacent26(&vox[i], &vox[j]) { d.union(i, j); } } }
     let expect: Vec<Vec<Vox>> = canon(&d.groups().into_iter().map(|g| g.into_iter().map(|i| vox[i]).collect()).collect::<Vec<Vec<Vox>>>());
     let mut first: Option<Vec<Vec<Vox>>> = None;
     for _run in 0..2 {
-        let set: HashSet<Vox> = vox.iter().copied().collect(); // fresh RandomState per set
+        let set: HashSet<Vox> = given.iter().copied().collect(); // fresh RandomState per set
         let got = crate::raster3::clusters_from_sparse(set);
-        let desc = || format!("clusters_from_sparse({:?}) = {:?}", vox, got);
+        let desc = || if vox.len() <= 40 { format!("clusters_from_sparse({:?}) = {:?}", vox, got) } else {
+            format!("clusters_from_sparse({} voxels: {:?} ..) = {} clusters of sizes {:?} ..", vox.len(), &vox[..6], got.len(), got.iter().take(12).map(|c| c.len()).collect::<Vec<_>>()) };
         let mut flat: Vec<Vox> = got.iter().flatten().copied().collect();
         flat.sort();
         let mut inp: Vec<Vox> = vox.to_vec();
@@ -1039,6 +1046,736 @@ fn run_large_ids(r: &mut Report, p: &Progress) {
     }
 }
 
+// ================================================================================================ WAVE 5: parameter-space audit
+// (j) index_vec directly; (k) chaining: long chains, many chains, vertex ids up to u32::MAX; (l) voxels: large / extreme
+// coordinates, every offset of a two-voxel set up to distance 3, large clusters, > 1000 clusters, duplicates;
+// (m) meshes with > 4096 faces, > 65536 edges, > 1000 components, loops of > 4000 vertices (sort-based oracles, no hash
+// containers); (n) every 4-face list over 5 vertices starting with [0,1,2] and every 3-face list over 6 vertices starting
+// with [0,1,2], plus non-orientable / pinched surfaces, each judged by a TOTAL oracle (edge in three faces -> Err; class G ->
+// edge table; otherwise -> Err); (o) degenerate faces (repeated vertex): the calls return; (p) create_box / create_cylinder
+// over every parameter; (q) edge lengths for extents 1e-9 .. 1e6 and offsets up to 1e8.
+
+// ------------------------------------------------------------------------------------------------ (j) index_vec
+fn run_index_vec(r: &mut Report, p: &Progress) {
+    use crate::common::indices::index_vec;
+    for len in [0usize, 1, 2, 3, 31, 32, 33, 63, 64, 65, 255, 256, 257, 1000, 1001, 4096, 4097, 65537] {
+        p.at(&[9, len as i64]);
+        r.case();
+        let v = index_vec(None, len);
+        r.check(v.len() == len && v.iter().enumerate().all(|(k, &x)| x == k), "index_vec: None gives the identity index list 0..len", || format!("index_vec(None, {}) has {} entries, first mismatch at {:?}", len, v.len(), v.iter().enumerate().find(|(k, x)| *k != **x)));
+    }
+    let mut lists: Vec<Vec<usize>> = vec![vec![], vec![0], vec![5], vec![3, 3, 3], vec![9, 2, 7, 2], vec![usize::MAX, 0], (0..70).rev().collect(), (0..5000).map(|k| (k * 7 + 3) % 1013).collect()];
+    lists.push((0..33).collect());
+    for items in lists.iter() {
+        for len in [0usize, 1, items.len() / 2, items.len(), items.len() + 5, 4097] {
+            p.at(&[10, items.len() as i64, len as i64]);
+            r.case();
+            let v = index_vec(Some(items), len);
+            r.check(v == *items, "index_vec: Some(list) gives that list unchanged (order, duplicates and length kept)", || format!("index_vec(Some({:?} ..; {} entries), {}) = {:?} .. ({} entries)", &items[..items.len().min(8)], items.len(), len, &v[..v.len().min(8)], v.len()));
+        }
+    }
+}
+
+// ------------------------------------------------------------------------------------------------ (k) chaining: magnitudes
+fn store_order(pairs: &[[u32; 2]], order: usize) -> Option<Vec<[u32; 2]>> {
+    let n = pairs.len();
+    Some(match order {
+        0 => pairs.to_vec(),
+        1 => pairs.iter().rev().copied().collect(),
+        2 => { if n % 7 == 0 { return None; } (0..n).map(|i| pairs[(i * 7 + 3) % n]).collect() }
+        3 => { let mut e: Vec<[u32; 2]> = pairs.iter().step_by(2).copied().collect(); e.extend(pairs.iter().skip(1).step_by(2).copied()); e }
+        // middle out: n/2, n/2-1, n/2+1, n/2-2, ..
+        _ => { let m = n / 2; let mut e = Vec::with_capacity(n); if n > 0 { e.push(pairs[m]); } for d in 1..=n { if m >= d { e.push(pairs[m - d]); } if m + d < n { e.push(pairs[m + d]); } } e }
+    })
+}
+/// sort-based form of check_chain_big for lists of thousands of pairs (no quadratic scans over the chains)
+fn check_chain_long(r: &mut Report, pairs: &[[u32; 2]], label: &str, expect_chains: Option<usize>) {
+    r.case();
+    let chains = crate::common::indices::chained_indices(pairs);
+    let desc = || format!("{}: {} pairs {:?} .. gave {} chains of lengths {:?} ..", label, pairs.len(), &pairs[..pairs.len().min(6)], chains.len(), chains.iter().take(8).map(|c| c.len()).collect::<Vec<_>>());
+    let mut want: Vec<(u32, u32)> = pairs.iter().map(|q| (q[0], q[1])).collect();
+    want.sort();
+    let mut got: Vec<(u32, u32)> = Vec::new();
+    for c in chains.iter() { for w in c.windows(2) { got.push((w[0], w[1])); } }
+    got.sort();
+    r.check(chains.iter().all(|c| c.len() >= 2), "chaining: every chain has at least two entries, all of them input vertex ids", desc);
+    r.check(got.iter().all(|g| want.binary_search(g).is_ok()), "chaining: consecutive chain entries are an input pair with its orientation kept", desc);
+    r.check(got == want, "chaining: every input pair is consumed exactly once", desc);
+    // maximality: sorted chain starts / ends, sorted pair starts / ends
+    let mut starts: Vec<(u32, usize)> = chains.iter().enumerate().filter(|(_, c)| c.len() >= 2).map(|(k, c)| (c[0], k)).collect();
+    starts.sort();
+    let mut outs: Vec<u32> = pairs.iter().map(|q| q[0]).collect(); outs.sort();
+    let mut ins: Vec<u32> = pairs.iter().map(|q| q[1]).collect(); ins.sort();
+    let count = |v: &Vec<u32>, x: u32| v.partition_point(|&y| y <= x) - v.partition_point(|&y| y < x);
+    let mut maximal = true;
+    for (i, a) in chains.iter().enumerate() {
+        if a.len() < 2 { continue; }
+        let v = *a.last().unwrap();
+        let lo = starts.partition_point(|s| s.0 < v);
+        let hi = starts.partition_point(|s| s.0 <= v);
+        if starts[lo..hi].iter().any(|s| s.1 != i) && count(&ins, v) == 1 && count(&outs, v) == 1 { maximal = false; }
+    }
+    r.check(maximal, "chaining: chains are maximal (two chains meet end-to-start only at an index where the continuation is not unique)", desc);
+    if let Some(n) = expect_chains {
+        r.check(chains.len() == n, "chaining: separate simple chains / loops come out as one chain each", || format!("{} expected {} chains", desc(), n));
+    }
+}
+fn run_long_chains(r: &mut Report, p: &Progress) {
+    // one simple open chain / closed loop of n links on ids base, base+1, .. (the highest id used is exactly u32::MAX for the last base)
+    for n in [31usize, 32, 33, 64, 65, 257, 1000, 1001, 4097] {
+        for closed in [false, true] {
+            let top = if closed { n as u32 - 1 } else { n as u32 };
+            for base in [0u32, 65530, (1u32 << 31) - 3, u32::MAX - top] {
+                let pairs: Vec<[u32; 2]> = (0..n as u32).map(|l| [base + l, if closed && l as usize == n - 1 { base } else { base + l + 1 }]).collect();
+                for order in 0..5usize {
+                    if n > 1001 && (order == 3 || base == 65530) { continue; }
+                    if let Some(stored) = store_order(&pairs, order) {
+                        p.at(&[11, n as i64, closed as i64, base as i64, order as i64]);
+                        check_chain_long(r, &stored, &format!("one {} of {} links on vertex ids {}.., storage order {}", if closed { "closed loop" } else { "open chain" }, n, base, order), Some(1));
+                    }
+                }
+            }
+        }
+    }
+    // every list of <= 3 pairs over the ids {0, 1, 65536, u32::MAX - 1, u32::MAX} (the exhaustive lists of group (a), relabelled)
+    let ids = [0u32, 1, 65536, u32::MAX - 1, u32::MAX];
+    let all: Vec<[u32; 2]> = (0..25usize).map(|k| [ids[k / 5], ids[k % 5]]).collect();
+    for len in 1..=3usize {
+        let mut idx = vec![0usize; len];
+        loop {
+            let pairs: Vec<[u32; 2]> = idx.iter().map(|&i| all[i]).collect();
+            p.at(&[12, len as i64, idx[0] as i64]);
+            check_chain_big(r, &pairs, "pairs over the vertex ids {0, 1, 65536, u32::MAX - 1, u32::MAX}", None);
+            let mut k = 0;
+            while k < len { idx[k] += 1; if idx[k] < all.len() { break; } idx[k] = 0; k += 1; }
+            if k == len { break; }
+        }
+    }
+    // many separate chains: 1100 chains of 3 links, 4100 chains of one link, 1030 closed loops of 2 links; 4 storage orders
+    for (k, m, closed) in [(1100usize, 3usize, false), (4100, 1, false), (1030, 2, true), (65, 64, false), (33, 33, true)] {
+        let mut pairs: Vec<[u32; 2]> = Vec::new();
+        for c in 0..k { let base = (c * (m + 1)) as u32; for l in 0..m {
+            pairs.push([base + l as u32, if closed && l == m - 1 { base } else { base + l as u32 + 1 }]);
+        } }
+        for order in 0..4usize {
+            if let Some(stored) = store_order(&pairs, order) {
+                p.at(&[13, k as i64, m as i64, order as i64]);
+                check_chain_long(r, &stored, &format!("{} separate {} of {} links, storage order {}", k, if closed { "closed loops" } else { "open chains" }, m, order), Some(k));
+            }
+        }
+    }
+    // a long chain with side branches (ambiguous continuations): exactly-once and maximality only
+    for n in [40usize, 300] {
+        let mut pairs: Vec<[u32; 2]> = (0..n as u32).map(|l| [l, l + 1]).collect();
+        for b in [n as u32 / 4, n as u32 / 2, n as u32 - 1] { pairs.push([b, 1000 + b]); pairs.push([2000 + b, b]); pairs.push([1000 + b, 3000 + b]); }
+        pairs.push([5, 5]);            // a self pair
+        pairs.push([7, 8]);            // a repeated pair
+        for order in 0..4usize {
+            if let Some(stored) = store_order(&pairs, order) {
+                p.at(&[14, n as i64, order as i64]);
+                check_chain_long(r, &stored, &format!("chain of {} links with branches, a self pair and a repeated pair, storage order {}", n, order), None);
+            }
+        }
+    }
+}
+
+// ------------------------------------------------------------------------------------------------ (l) voxels: magnitudes
+fn run_far_voxels(r: &mut Report, p: &Progress) {
+    // (l1) two voxels at every offset of the 7x7x7 stencil: one cluster exactly for the 26 offsets of Chebyshev length 1
+    let lim = i32::MAX - 1; // largest legal coordinate (the neighbour arithmetic of a voxel AT i32::MAX overflows: precondition)
+    let bases: [Vox; 8] = [(0, 0, 0), (1000, -1000, 7), (1 << 20, -(1 << 20), (1 << 21) + 1), (65536, -65536, 32768), (-(1 << 10), 1 << 10, 1 << 16),
+        (lim - 3, -lim + 3, lim - 3), (-lim + 3, lim - 3, 0), (1 << 30, -(1 << 30), (1 << 30) + 1)];
+    for b in bases { for dx in -3..=3i32 { for dy in -3..=3i32 { for dz in -3..=3i32 {
+        if dx == 0 && dy == 0 && dz == 0 { continue; }
+        p.at(&[20, b.0 as i64, b.1 as i64, b.2 as i64, dx as i64, dy as i64, dz as i64]);
+        check_voxels(r, &[b, (b.0 + dx, b.1 + dy, b.2 + dz)]);
+    } } } }
+    // (l2) voxels whose coordinates differ by a power of two (they coincide when coordinates are packed into too few bits),
+    // each with one true neighbour; a duplicate of every voxel in the input list
+    for k in [4u32, 8, 10, 12, 16, 20, 21, 24, 30] {
+        let s = 1i32 << k;
+        let mut v: Vec<Vox> = vec![(0, 0, 0), (s, 0, 0), (0, s, 0), (0, 0, s), (-s, 0, 0), (0, -s, 0), (0, 0, -s), (s, s, s), (-s, s, -s), (1, 0, 0), (s + 1, 1, -1), (-1, s - 1, 1), (s, s + 1, s)];
+        let w = v.clone(); v.extend(w);
+        p.at(&[21, k as i64]);
+        check_voxels(r, &v);
+    }
+    // (l3) large clusters and many clusters
+    let mut fam: Vec<(String, Vec<Vox>)> = Vec::new();
+    let mut v = Vec::new(); for x in 0..17 { for y in 0..17 { for z in 0..17 { v.push((x - 8, y - 8, z - 8)); } } }
+    fam.push(("17x17x17 block across the origin (4913 voxels, one cluster)".into(), v));
+    fam.push(("line of 5000 voxels along x".into(), (0..5000).map(|i| (i - 2500, 7, -7)).collect()));
+    fam.push(("body-diagonal staircase of 1100 voxels".into(), (0..1100).map(|i| (i, -i, i + 1_000_000)).collect()));
+    let mut v = Vec::new(); for x in 0..11 { for y in 0..11 { for z in 0..11 { v.push((2 * x - 10, 2 * y, 2 * z + 100_000)); } } }
+    fam.push(("11x11x11 voxels two apart (1331 clusters of one voxel)".into(), v));
+    let mut v = Vec::new(); for x in 0..9 { for y in 0..9 { for z in 0..9 { v.push((x, y, z)); v.push((x + 10, y, z)); } } }
+    fam.push(("two 9x9x9 blocks separated by one empty layer (two clusters)".into(), v.clone()));
+    v.push((9, 9, 9));
+    fam.push(("two 9x9x9 blocks joined through one corner voxel (one cluster)".into(), v));
+    let mut v = Vec::new(); for i in 0..70 { for j in 0..33 { v.push((3 * i, j, 0)); } v.push((3 * i + 1, if i % 2 == 0 { 32 } else { 0 }, 1)); v.push((3 * i + 2, if i % 2 == 0 { 32 } else { 0 }, 1)); }
+    fam.push(("serpentine of 70 columns of 33 voxels (one cluster, long detour)".into(), v));
+    let mut v = Vec::new(); for i in 0..1500 { v.push((i * 3, (i % 7) * 3, -(i % 5) * 3)); v.push((i * 3 + 1, (i % 7) * 3 + 1, -(i % 5) * 3 - 1)); }
+    fam.push(("1500 separate corner-touching pairs".into(), v));
+    for (k, (name, v)) in fam.iter().enumerate() {
+        p.at(&[22, k as i64]);
+        let before = r.failures.len();
+        check_voxels(r, v);
+        if r.failures.len() > before { let m = r.failures.len(); for f in r.failures[before..m].iter_mut() { f.push_str(&format!(" [{}]", name)); } }
+    }
+}
+
+// ------------------------------------------------------------------------------------------------ (m) large meshes
+/// sort-based oracle (no hash containers, no quadratic scans)
+struct MeshOracle {
+    und: Vec<(u32, u32)>,
+    boundary: Vec<(u32, u32)>,
+    comp: Vec<Vec<usize>>,
+    max_count: usize,
+    wound: bool,
+    class_g: bool,
+}
+fn mesh_oracle(faces: &[[u32; 3]]) -> MeshOracle {
+    let nf = faces.len();
+    let mut ef: Vec<((u32, u32), usize)> = Vec::with_capacity(3 * nf);
+    let mut de: Vec<(u32, u32)> = Vec::with_capacity(3 * nf);
+    let mut proper = true;
+    for (k, f) in faces.iter().enumerate() {
+        if f[0] == f[1] || f[1] == f[2] || f[2] == f[0] { proper = false; }
+        for e in dir_edges(f) { ef.push((ue(e.0, e.1), k)); de.push(e); }
+    }
+    ef.sort();
+    let mut d = Dsu::new(nf);
+    let (mut und, mut boundary, mut max_count) = (Vec::new(), Vec::new(), 0usize);
+    let mut i = 0;
+    while i < ef.len() {
+        let mut j = i;
+        while j < ef.len() && ef[j].0 == ef[i].0 { d.union(ef[i].1, ef[j].1); j += 1; }
+        und.push(ef[i].0);
+        if j - i == 1 { boundary.push(ef[i].0); }
+        max_count = max_count.max(j - i);
+        i = j;
+    }
+    let mut sorted_de = de.clone();
+    sorted_de.sort();
+    let wound = sorted_de.windows(2).all(|w| w[0] != w[1]);
+    // class G: the directed boundary edges give every boundary vertex one successor and one predecessor
+    let mut bd: Vec<(u32, u32)> = de.iter().copied().filter(|e| boundary.binary_search(&ue(e.0, e.1)).is_ok()).collect();
+    bd.sort();
+    let starts: Vec<u32> = bd.iter().map(|e| e.0).collect();
+    let mut ends: Vec<u32> = bd.iter().map(|e| e.1).collect();
+    ends.sort();
+    let class_g = proper && max_count <= 2 && starts.windows(2).all(|w| w[0] != w[1]) && ends.windows(2).all(|w| w[0] != w[1]) && ends == starts;
+    MeshOracle { und, boundary, comp: d.groups(), max_count, wound, class_g }
+}
+fn check_cycles_fast(loops: &[Vec<u32>], boundary: &[(u32, u32)]) -> (bool, bool) {
+    let mut seen: Vec<(u32, u32)> = Vec::new();
+    let mut cyc_ok = true;
+    for l in loops {
+        let n = l.len();
+        if n < 3 { cyc_ok = false; }
+        let mut s = l.clone(); s.sort();
+        if s.windows(2).any(|w| w[0] == w[1]) { cyc_ok = false; }
+        for i in 0..n {
+            let e = ue(l[i], l[(i + 1) % n]);
+            if boundary.binary_search(&e).is_err() { cyc_ok = false; }
+            seen.push(e);
+        }
+    }
+    seen.sort();
+    (cyc_ok, seen == boundary)
+}
+fn loops_canon(loops: &[Vec<u32>]) -> Vec<Vec<(u32, u32)>> {
+    let per: Vec<Vec<(u32, u32)>> = loops.iter().map(|l| (0..l.len()).map(|i| ue(l[i], l[(i + 1) % l.len()])).collect()).collect();
+    canon(&per)
+}
+/// all clauses of check_mesh (edge table, patches, patch boundaries) for a consistently wound mesh without vertex-only
+/// contacts - or, with `any_winding`, the clauses that hold for class G (edge table) and for every face list (patches)
+fn check_mesh_large(r: &mut Report, p: &Progress, verts: &[Point3], faces: &[[u32; 3]], label: &str, any_winding: bool) {
+    r.case();
+    let nf = faces.len();
+    let o = mesh_oracle(faces);
+    let mesh = Mesh::new(verts.to_vec(), faces.to_vec(), false);
+    let desc = || format!("{} ({} vertices, {} faces: {:?} ..)", label, verts.len(), nf, &faces[..nf.min(4)]);
+    r.check(mesh.faces() == faces && mesh.vertices() == verts, "mesh: Mesh::new keeps the face list and the vertex list", desc);
+    if !(o.class_g && (any_winding || o.wound)) { r.check(false, "internal: generated mesh is in the stated class", desc); return; }
+    p.at(&[30, nf as i64, 1]);
+    let mut first: Option<(Vec<(u32, u32)>, Vec<Vec<(u32, u32)>>)> = None;
+    for _run in 0..2 {
+        match mesh.calc_edges() {
+            Err(_) => r.check(false, "edges: a mesh with no edge in more than two faces has an edge table", desc),
+            Ok(me) => {
+                r.check(std::ptr::eq(me.mesh(), &mesh) && me.vertices() == verts && me.faces() == faces, "edges: the edge table refers to the mesh it was computed for (mesh / vertices / faces accessors)", desc);
+                let mut listed: Vec<(u32, u32)> = me.edges.iter().map(|e| ue(e[0], e[1])).collect();
+                listed.sort();
+                r.check(listed == o.und, "edges: the edge table lists each undirected edge exactly once", || format!("{}: {} listed, {} expected", desc(), listed.len(), o.und.len()));
+                let mut len_ok = me.edge_lengths.len() == me.edges.len();
+                let mut worst = String::new();
+                if len_ok { for (k, (e, l)) in me.edges.iter().zip(me.edge_lengths.iter()).enumerate() {
+                    if e[0] as usize >= verts.len() || e[1] as usize >= verts.len() { len_ok = false; continue; }
+                    let (a, b) = (verts[e[0] as usize], verts[e[1] as usize]);
+                    let t = ((b.x - a.x).powi(2) + (b.y - a.y).powi(2) + (b.z - a.z).powi(2)).sqrt();
+                    if !(l.is_finite() && (*l - t).abs() <= 1e-12 * t) { if len_ok { worst = format!("edge {} {:?}: edge_lengths = {:?}, |v1 - v0| = {:?}", k, e, l, t); } len_ok = false; }
+                } }
+                r.check(len_ok, "edges: every listed edge carries its length", || format!("{}: {}", desc(), worst));
+                let mut fe_ok = me.face_edges.len() == nf;
+                let mut bad_face = 0usize;
+                if fe_ok { for (k, (f, fe)) in faces.iter().zip(me.face_edges.iter()).enumerate() {
+                    let mut want: Vec<(u32, u32)> = dir_edges(f).iter().map(|e| ue(e.0, e.1)).collect();
+                    want.sort();
+                    let mut got: Vec<(u32, u32)> = Vec::new();
+                    for &q in fe.iter() { if let Some(e) = me.edges.get(q as usize) { got.push(ue(e[0], e[1])); } }
+                    got.sort();
+                    if got != want { if fe_ok { bad_face = k; } fe_ok = false; }
+                } }
+                r.check(fe_ok, "edges: every face is mapped to its three edges", || format!("{}: face {} = {:?} has face_edges {:?}", desc(), bad_face, faces.get(bad_face), me.face_edges.get(bad_face)));
+                let (cyc, once) = check_cycles_fast(&me.boundary_loops, &o.boundary);
+                let dl = || format!("{}: {} boundary edges, {} loops of lengths {:?} ..", desc(), o.boundary.len(), me.boundary_loops.len(), me.boundary_loops.iter().take(8).map(|l| l.len()).collect::<Vec<_>>());
+                r.check(cyc, "edges: every boundary loop is a closed vertex cycle along boundary edges", dl);
+                r.check(once, "edges: the boundary loops together contain every boundary edge exactly once", dl);
+                let cl = loops_canon(&me.boundary_loops);
+                match &first {
+                    None => first = Some((listed, cl)),
+                    Some((l0, c0)) => r.check(*l0 == listed && *c0 == cl, "edges: same edge table and loops as sets on a repeated run (hash order)", dl),
+                }
+            }
+        }
+    }
+    p.at(&[30, nf as i64, 2]);
+    let comp_of = { let mut c = vec![0usize; nf]; for (k, g) in o.comp.iter().enumerate() { for &f in g { c[f] = k; } } c };
+    let mut first_p: Option<Vec<Vec<usize>>> = None;
+    for _run in 0..2 {
+        let patches = mesh.get_patches();
+        let d3 = || format!("{}: {} patches of sizes {:?} .., {} components expected", desc(), patches.len(), patches.iter().take(8).map(|q| q.len()).collect::<Vec<_>>(), o.comp.len());
+        let mut flat: Vec<usize> = patches.iter().flatten().copied().collect();
+        flat.sort();
+        let part = flat.len() == nf && flat.iter().enumerate().all(|(k, &f)| f == k) && patches.iter().all(|q| !q.is_empty());
+        r.check(part, "patches: every face is in exactly one patch", d3);
+        let cp = canon(&patches);
+        if o.wound {
+            r.check(cp == o.comp, "patches: two faces share a patch exactly when they are connected through shared edges", d3);
+            match &first_p {
+                None => first_p = Some(cp),
+                Some(f) => r.check(*f == cp, "patches: same patches as sets on a repeated run (hash order)", d3),
+            }
+        } else if part {
+            r.check(patches.iter().all(|q| q.iter().all(|&f| comp_of[f] == comp_of[q[0]])), "patches: two faces that share a patch are connected through shared edges (any winding, any contact)", d3);
+        }
+    }
+    if !o.wound { return; }
+    p.at(&[30, nf as i64, 3]);
+    match mesh.get_patch_boundary_points() {
+        Err(_) => r.check(false, "patch boundaries: computed for a mesh with no edge in more than two faces", desc),
+        Ok(bp) => {
+            let bits = |q: &Point3| (q.x.to_bits(), q.y.to_bits(), q.z.to_bits());
+            let mut index: Vec<((u64, u64, u64), u32)> = verts.iter().enumerate().map(|(k, q)| (bits(q), k as u32)).collect();
+            index.sort();
+            let distinct = index.windows(2).all(|w| w[0].0 != w[1].0);
+            let mut ids: Vec<Vec<u32>> = Vec::new();
+            let mut known = distinct;
+            for l in bp.iter() { let mut v = Vec::new(); for q in l { match index.binary_search_by(|x| x.0.cmp(&bits(q))) { Ok(k) => v.push(index[k].1), Err(_) => known = false } } ids.push(v); }
+            let d4 = || format!("{}: {} boundaries of lengths {:?} ..", desc(), ids.len(), ids.iter().take(8).map(|l| l.len()).collect::<Vec<_>>());
+            r.check(known, "patch boundaries: every returned point is a mesh vertex", d4);
+            let (cyc, once) = check_cycles_fast(&ids, &o.boundary);
+            r.check(cyc, "patch boundaries: every boundary is a closed vertex cycle along boundary edges", d4);
+            r.check(once, "patch boundaries: together they contain every boundary edge exactly once", d4);
+        }
+    }
+}
+/// closed nx x ny torus of quads (two consistently wound triangles each); vertex (i, j) has id j * nx + i
+fn torus(nx: u32, ny: u32) -> (Vec<Point3>, Vec<[u32; 3]>) {
+    let mut v = Vec::new();
+    for j in 0..ny { for i in 0..nx { v.push(Point3::new(i as f64 + 0.125 * j as f64, j as f64 * 1.5, 0.25 * ((i * 7 + j * 3) % 11) as f64)); } }
+    let id = |i: u32, j: u32| (j % ny) * nx + (i % nx);
+    let mut f = Vec::new();
+    for j in 0..ny { for i in 0..nx {
+        f.push([id(i, j), id(i + 1, j), id(i + 1, j + 1)]);
+        f.push([id(i, j), id(i + 1, j + 1), id(i, j + 1)]);
+    } }
+    (v, f)
+}
+/// several meshes as separate components of one mesh (ids shifted, the copies moved apart along z)
+fn concat(parts: &[(Vec<Point3>, Vec<[u32; 3]>)]) -> (Vec<Point3>, Vec<[u32; 3]>) {
+    let (mut v, mut f) = (Vec::new(), Vec::new());
+    for (k, (pv, pf)) in parts.iter().enumerate() {
+        let base = v.len() as u32;
+        v.extend(pv.iter().map(|q| Point3::new(q.x, q.y, q.z + 1000.0 * (k + 1) as f64)));
+        f.extend(pf.iter().map(|t| [t[0] + base, t[1] + base, t[2] + base]));
+    }
+    (v, f)
+}
+fn flip_every(faces: &[[u32; 3]], pick: &dyn Fn(usize, &[u32; 3]) -> bool) -> Vec<[u32; 3]> {
+    faces.iter().enumerate().map(|(k, f)| if pick(k, f) { [f[0], f[2], f[1]] } else { *f }).collect()
+}
+fn run_large_meshes(r: &mut Report, p: &Progress) {
+    let tri = |k: u32| (vec![Point3::new(k as f64, 0.0, 0.0), Point3::new(k as f64 + 0.5, 1.0, 0.0), Point3::new(k as f64, 2.0, 0.5)], vec![[0u32, 1, 2]]);
+    let mut fam: Vec<(String, Vec<Point3>, Vec<[u32; 3]>)> = Vec::new();
+    let (v, f) = grid(46, 46, &[], 0.0, 0); fam.push(("46x46 grid (4232 faces)".into(), v, f));
+    let holes: Vec<(u32, u32)> = (0..23u32).flat_map(|a| (0..10u32).map(move |b| (3 * a + 1, 3 * b + 1))).collect();
+    let (v, f) = grid(70, 31, &holes, 0.0, 0); fam.push(("70x31 grid with 230 quad holes".into(), v, f));
+    let (v, f) = grid(2100, 1, &[], 0.0, 0); fam.push(("2100x1 strip (one boundary loop of 4202 vertices)".into(), v, f));
+    let (v, f) = torus(40, 53); fam.push(("40x53 torus (closed, 4240 faces)".into(), v, f));
+    let (v, f) = torus(3, 3); fam.push(("3x3 torus (closed, 18 faces, 9 vertices)".into(), v, f));
+    let parts: Vec<(Vec<Point3>, Vec<[u32; 3]>)> = (0..1100u32).map(tri).collect();
+    let (v, f) = concat(&parts); fam.push(("1100 separate triangles".into(), v, f));
+    // components of very different sizes: big first / tiny first; the number of components exceeds the size of the last ones
+    let mut parts: Vec<(Vec<Point3>, Vec<[u32; 3]>)> = Vec::new();
+    let (v, f) = grid(10, 10, &[], 0.0, 0); parts.push((v, f));
+    let (v, f) = torus(5, 4); parts.push((v, f));
+    for _ in 0..40 { let (v, f) = grid(1, 1, &[], 0.0, 0); parts.push((v, f)); }
+    for k in 0..5 { parts.push(tri(k)); }
+    let (v, f) = concat(&parts); fam.push(("47 components: 10x10 grid, 5x4 torus, 40 quads, 5 triangles (big first)".into(), v, f));
+    parts.reverse();
+    let (v, f) = concat(&parts); fam.push(("47 components: 5 triangles, 40 quads, 5x4 torus, 10x10 grid (tiny first)".into(), v, f));
+    let mut parts: Vec<(Vec<Point3>, Vec<[u32; 3]>)> = Vec::new();
+    for k in 0..70u32 { let (v, f) = grid(1 + k % 4, 1 + k % 3, &[], 0.0, 0); parts.push((v, f)); }
+    let (v, f) = concat(&parts); fam.push(("70 small grids of sizes 1x1 .. 4x3".into(), v, f));
+    for steps in [2100usize] {
+        let c = Mesh::create_cylinder(1.5, 4.0, steps);
+        fam.push((format!("create_cylinder(1.5, 4, {})", steps), c.vertices().to_vec(), c.faces().to_vec()));
+    }
+    // more than 65536 edges AND vertex ids above 2^16: a 153x153 grid on the vertex ids 50000..
+    let (gv, gf) = grid(153, 153, &[(7, 9), (100, 100), (152, 152)], 0.0, 50000);
+    let mut v: Vec<Point3> = (0..50000).map(|k| Point3::new(-1.0 - k as f64, -5.0, 0.0)).collect(); v.extend(gv);
+    fam.push(("153x153 grid with 3 holes on the vertex ids 50000.. (70k edges)".into(), v, gf));
+    for (k, (name, v, f)) in fam.iter().enumerate() {
+        let big = f.len() > 20000;
+        for variant in 0..(if big { 1usize } else { 3 }) {
+            p.at(&[31, k as i64, variant as i64]);
+            let fs = restore(f, variant);
+            check_mesh_large(r, p, v, &fs, &format!("{} (storage variant {})", name, variant), false);
+        }
+        if !big {
+            // reversed vertex numbering
+            let perm: Vec<u32> = (0..v.len() as u32).rev().collect();
+            let (v2, f2) = renumber(v, f, &perm);
+            p.at(&[32, k as i64]);
+            check_mesh_large(r, p, &v2, &restore(&f2, 4), &format!("{} (vertex numbering reversed, storage variant 4)", name), false);
+        }
+    }
+    // inconsistent winding at scale (class G): the torus with every 3rd face flipped; the 46x46 grid with interior faces flipped
+    let (v, f) = torus(40, 53);
+    p.at(&[33, 0]);
+    check_mesh_large(r, p, &v, &flip_every(&f, &|k, _| k % 3 == 0), "40x53 torus with every 3rd face flipped", true);
+    let (v, f) = grid(46, 46, &[], 0.0, 0);
+    let o = mesh_oracle(&f);
+    let interior = |t: &[u32; 3]| dir_edges(t).iter().all(|e| o.boundary.binary_search(&ue(e.0, e.1)).is_err());
+    p.at(&[33, 1]);
+    check_mesh_large(r, p, &v, &flip_every(&f, &|k, t| k % 5 == 0 && interior(t)), "46x46 grid with every 5th face flipped unless it owns a boundary edge", true);
+    // the OTHER verdicts at scale: a face flipped along the boundary, two big grids sharing a corner vertex, an edge in 3 faces
+    let mut refused: Vec<(String, Vec<Point3>, Vec<[u32; 3]>, bool)> = Vec::new();
+    let fl = flip_every(&f, &|k, _| k == 0 || k == 4231);
+    refused.push(("46x46 grid with its first and last face flipped (they own boundary edges)".into(), v.clone(), fl, false));
+    let (v2, f2) = grid(46, 46, &[], 9.0, 0);
+    let last = v.len() as u32 - 1;
+    let mut vv = v.clone(); vv.extend(v2.iter().skip(1).copied());
+    let mut ff = f.clone(); ff.extend(f2.iter().map(|t| { let m = |i: u32| if i == 0 { last } else { last + i }; [m(t[0]), m(t[1]), m(t[2])] }));
+    refused.push(("two 46x46 grids sharing one corner vertex".into(), vv, ff, false));
+    let mut vv = v.clone(); vv.push(Point3::new(0.5, 0.5, 77.0));
+    let mut ff = f.clone(); ff.push([47 * 20 + 20, 47 * 20 + 21, vv.len() as u32 - 1]);
+    refused.push(("46x46 grid with a fin on an interior edge (edge in three faces)".into(), vv, ff, true));
+    for (k, (name, v, f, three)) in refused.iter().enumerate() {
+        p.at(&[34, k as i64]);
+        r.case();
+        let o = mesh_oracle(f);
+        let desc = || format!("{} ({} faces)", name, f.len());
+        if (o.max_count > 2) != *three || o.class_g { r.check(false, "internal: generated mesh is in the stated class", desc); continue; }
+        let mesh = Mesh::new(v.clone(), f.clone(), false);
+        for _run in 0..2 {
+            let res = mesh.calc_edges();
+            if *three { r.check(res.is_err(), "edges: a mesh with an edge in more than two faces is refused (Err)", desc); }
+            else { r.check(res.is_err(), D7_CLAUSE, desc); }
+        }
+        // a refused edge table leaves the mesh as it was: the patch decomposition is still the partition into components
+        let patches = mesh.get_patches();
+        let mut flat: Vec<usize> = patches.iter().flatten().copied().collect();
+        flat.sort();
+        r.check(flat.len() == f.len() && flat.iter().enumerate().all(|(k, &x)| x == k), "patches: every face is in exactly one patch", desc);
+        if o.wound { r.check(canon(&patches) == o.comp, "patches: two faces share a patch exactly when they are connected through shared edges", desc); }
+    }
+}
+
+// ------------------------------------------------------------------------------------------------ (n) total verdict on small lists
+/// one face list, every clause the statement has for it: an edge in three faces -> Err; class G -> the edge table; otherwise
+/// (boundary edges not in closed loops) -> Err; patches as for any face list.  The calls are interleaved (patches, edges,
+/// patches) - none of them may disturb the other
+fn check_any_mesh(r: &mut Report, verts: &[Point3], faces: &[[u32; 3]], label: &str, runs: usize) {
+    check_patches_any(r, verts, faces, runs, label);
+    if in_class(faces) {
+        check_mesh(r, verts, faces, label);
+    } else if has_edge_in_three_faces(faces) {
+        r.case();
+        let mesh = Mesh::new(verts.to_vec(), faces.to_vec(), false);
+        r.check(mesh.calc_edges().is_err(), "edges: a mesh with an edge in more than two faces is refused (Err)", || format!("{} faces {:?}", label, faces));
+    } else if in_class_g(faces) {
+        r.case();
+        let mesh = Mesh::new(verts.to_vec(), faces.to_vec(), false);
+        check_edge_table(r, &mesh, verts, faces, label);
+    } else {
+        check_refused(r, verts, faces, label);
+    }
+}
+fn six_vertices() -> Vec<Point3> {
+    let mut v = base_vertices();
+    v.push(Point3::new(-3.0, 1.0, -2.0));
+    v
+}
+fn run_total_small(r: &mut Report, p: &Progress) {
+    let mut buf: Vec<i64> = Vec::new();
+    // (n1) every list [0,1,2], a, b, c with a < b < c (as positions in the list of the 60 proper faces over 5 vertices)
+    let verts = base_vertices();
+    let mut tri: Vec<[u32; 3]> = Vec::new();
+    for a in 0..5u32 { for b in 0..5u32 { for c in 0..5u32 { if a != b && b != c && a != c { tri.push([a, b, c]); } } } }
+    for a in 0..tri.len() { for b in (a + 1)..tri.len() { for c in (b + 1)..tri.len() {
+        let faces = vec![[0u32, 1, 2], tri[a], tri[b], tri[c]];
+        buf.clear();
+        for f in faces.iter() { buf.extend_from_slice(&[f[0] as i64, f[1] as i64, f[2] as i64]); }
+        p.at(&buf);
+        check_any_mesh(r, &verts, &faces, "Mesh::new(5 fixed vertices), 4 faces", 2);
+    } } }
+    // (n2) every ordered list [0,1,2], a, b over 6 vertices (two faces without a common vertex become possible)
+    let verts = six_vertices();
+    let mut tri: Vec<[u32; 3]> = Vec::new();
+    for a in 0..6u32 { for b in 0..6u32 { for c in 0..6u32 { if a != b && b != c && a != c { tri.push([a, b, c]); } } } }
+    for a in 0..tri.len() { for b in 0..tri.len() {
+        let faces = vec![[0u32, 1, 2], tri[a], tri[b]];
+        buf.clear();
+        for f in faces.iter() { buf.extend_from_slice(&[f[0] as i64, f[1] as i64, f[2] as i64]); }
+        p.at(&buf);
+        check_any_mesh(r, &verts, &faces, "Mesh::new(6 fixed vertices), 3 faces", 2);
+    } }
+    // (n3) shape classes: non-orientable, pinched, holes that touch, coincident vertices
+    let mut fam: Vec<(String, Vec<Point3>, Vec<[u32; 3]>)> = Vec::new();
+    fam.push(("Moebius band on 5 vertices".into(), base_vertices(), vec![[0, 1, 2], [1, 2, 3], [2, 3, 4], [3, 4, 0], [4, 0, 1]]));
+    fam.push(("projective plane on 6 vertices (closed, not orientable)".into(), six_vertices(), vec![[0, 1, 2], [0, 2, 3], [0, 3, 4], [0, 4, 5], [0, 5, 1], [1, 2, 4], [2, 3, 5], [3, 4, 1], [4, 5, 2], [5, 1, 3]]));
+    let tv = vec![Point3::new(0.0, 0.0, 0.0), Point3::new(2.0, 0.0, 0.0), Point3::new(0.0, 3.0, 0.0), Point3::new(0.0, 0.0, 5.0), Point3::new(-2.0, 0.0, 0.5), Point3::new(0.0, -3.0, 0.25), Point3::new(0.5, 0.0, -5.0)];
+    let tf = vec![[0u32, 2, 1], [0, 1, 3], [1, 2, 3], [2, 0, 3]];
+    let mut two = tf.clone(); two.extend(tf.iter().map(|t| { let m = |i: u32| if i == 0 { 0 } else { i + 3 }; [m(t[0]), m(t[1]), m(t[2])] }));
+    fam.push(("two closed tetrahedra sharing one vertex (no boundary)".into(), tv.clone(), two));
+    let mut two = tf.clone(); two.extend(tf.iter().map(|t| { let m = |i: u32| if i <= 1 { i } else { i + 3 }; [m(t[0]), m(t[1]), m(t[2])] }));
+    fam.push(("two closed tetrahedra sharing one edge (edge in four faces)".into(), tv.clone(), two));
+    let (v, f) = grid(4, 4, &[(1, 1), (2, 2)], 0.0, 0); fam.push(("4x4 grid with two quad holes touching at a vertex".into(), v, f));
+    let (v, f) = grid(4, 4, &[(1, 1), (2, 1)], 0.0, 0); fam.push(("4x4 grid with two adjacent quads removed (one hole)".into(), v, f));
+    let (v, f) = grid(3, 3, &[(0, 0), (2, 2)], 0.0, 0); fam.push(("3x3 grid without two opposite corner quads".into(), v, f));
+    let (v, f) = grid(3, 3, &[(0, 0), (1, 1)], 0.0, 0); fam.push(("3x3 grid without a corner quad and the centre quad (hole touches the outer boundary at a vertex)".into(), v, f));
+    // coincident vertex POSITIONS under different ids: connectivity is by id; a zero-length edge has length 0
+    let cv = vec![Point3::new(0.0, 0.0, 0.0), Point3::new(1.0, 0.0, 0.0), Point3::new(1.0, 2.0, 0.0), Point3::new(0.0, 2.0, 0.5), Point3::new(1.0, 2.0, 0.0), Point3::new(0.0, 0.0, 0.0)];
+    fam.push(("quad stored as two triangles that do not share vertex ids (unwelded)".into(), cv.clone(), vec![[0, 1, 2], [5, 4, 3]]));
+    fam.push(("two triangles with a zero-length edge (vertices 2 and 4 coincide)".into(), cv.clone(), vec![[0, 1, 2], [0, 2, 4]]));
+    for (name, v, f) in fam.iter() {
+        for variant in 0..6usize {
+            let fs = restore(f, variant);
+            buf.clear();
+            for t in fs.iter() { buf.extend_from_slice(&[t[0] as i64, t[1] as i64, t[2] as i64]); }
+            p.at(&buf);
+            // check_mesh identifies returned points with vertices by position: not for the meshes with coincident positions
+            let dup = v.iter().enumerate().any(|(i, a)| v[..i].iter().any(|b| a == b));
+            if dup {
+                check_patches_any(r, v, &fs, 8, name);
+                if in_class_g(&fs) { r.case(); let mesh = Mesh::new(v.clone(), fs.clone(), false); check_edge_table(r, &mesh, v, &fs, name); }
+            } else {
+                check_any_mesh(r, v, &fs, &format!("{} (storage variant {})", name, variant), 8);
+            }
+        }
+    }
+}
+
+// ------------------------------------------------------------------------------------------------ (o) degenerate faces
+/// faces with a repeated vertex: the statement's "every triangle mesh" does not say what their edge table is, but the
+/// computations must FINISH on every input (watchdog / panic capture of `guarded`), the patch decomposition - which looks at
+/// face indices only - must still put every face in exactly one patch, and two runs must give the same verdict
+fn run_degenerate(r: &mut Report, p: &Progress) {
+    let verts: Vec<Point3> = base_vertices()[..4].to_vec();
+    let mut tri: Vec<[u32; 3]> = Vec::new();
+    for a in 0..4u32 { for b in 0..4u32 { for c in 0..4u32 { tri.push([a, b, c]); } } }
+    let degenerate = |f: &[u32; 3]| f[0] == f[1] || f[1] == f[2] || f[2] == f[0];
+    let mut buf: Vec<i64> = Vec::new();
+    for len in 1..=3usize {
+        let mut idx = vec![0usize; len];
+        loop {
+            let faces: Vec<[u32; 3]> = idx.iter().map(|&i| tri[i]).collect();
+            // three faces: the first one is [0,0,0], [0,0,1], [0,1,0], [1,0,0] or [0,1,2]; at least one face is degenerate
+            let run_it = faces.iter().any(degenerate) && (len < 3 || [[0u32, 0, 0], [0, 0, 1], [0, 1, 0], [1, 0, 0], [0, 1, 2]].contains(&faces[0]));
+            if run_it {
+                buf.clear();
+                for f in faces.iter() { buf.extend_from_slice(&[f[0] as i64, f[1] as i64, f[2] as i64]); }
+                p.at(&buf);
+                r.case();
+                let mesh = Mesh::new(verts.clone(), faces.clone(), false);
+                let desc = || format!("faces {:?}", faces);
+                let e1 = mesh.calc_edges().map(|e| (e.edges.len(), e.face_edges.len(), e.edge_lengths.len())).ok();
+                let e2 = mesh.calc_edges().map(|e| (e.edges.len(), e.face_edges.len(), e.edge_lengths.len())).ok();
+                r.check(e1 == e2, "degenerate faces: calc_edges returns, with the same verdict and table sizes on a repeated run", || format!("{}: {:?} then {:?}", desc(), e1, e2));
+                if let Some((ne, nfe, nl)) = e1 { r.check(nfe == faces.len() && nl == ne, "degenerate faces: an edge table has one entry per face and one length per edge", desc); }
+                let patches = mesh.get_patches();
+                let mut flat: Vec<usize> = patches.iter().flatten().copied().collect();
+                flat.sort();
+                r.check(flat == (0..faces.len()).collect::<Vec<_>>() && patches.iter().all(|q| !q.is_empty()), "patches: every face is in exactly one patch", || format!("{} get_patches {:?}", desc(), patches));
+                let _ = mesh.get_patch_boundary_points(); // must return (Ok or Err)
+            }
+            let mut k = 0;
+            while k < len { idx[k] += 1; if idx[k] < tri.len() { break; } idx[k] = 0; k += 1; }
+            if k == len { break; }
+        }
+    }
+}
+
+// ------------------------------------------------------------------------------------------------ (p) generators: every parameter
+/// closed / open, consistently wound, indices in range, counted with sorted lists (any size)
+fn generated_topology(r: &mut Report, mesh: &Mesh, label: &str, closed: bool) -> bool {
+    let faces = mesh.faces();
+    let nv = mesh.vertices().len();
+    let desc = || format!("{} ({} vertices, {} faces: {:?} ..)", label, nv, faces.len(), &faces[..faces.len().min(4)]);
+    let mut de: Vec<(u32, u32)> = Vec::new();
+    let mut ok = faces.iter().all(|f| f.iter().all(|&i| (i as usize) < nv));
+    for f in faces.iter() { for e in dir_edges(f) { if e.0 == e.1 { ok = false; } de.push(e); } }
+    de.sort();
+    if de.windows(2).any(|w| w[0] == w[1]) { ok = false; }
+    r.check(ok, "generators: consistently wound (every directed edge occurs at most once, indices inside the vertex list)", desc);
+    if closed {
+        r.check(de.iter().all(|e| de.binary_search(&(e.1, e.0)).is_ok()), "generators: the box is closed (every undirected edge twice, once in each direction)", desc);
+    }
+    ok
+}
+fn run_generator_params(r: &mut Report, p: &Progress) {
+    // ---- create_box: every ordered triple of sizes from 1e-9 .. 1e8, both values of is_solid
+    let dims = [1.0e-9, 1.0e-6, 0.001, 0.5, 1.0, 3.0, 1.0e3, 1.0e8];
+    for (a, &w) in dims.iter().enumerate() { for (b, &h) in dims.iter().enumerate() { for (c, &d) in dims.iter().enumerate() { for solid in [false, true] {
+        p.at(&[40, a as i64, b as i64, c as i64, solid as i64]);
+        r.case();
+        let m = Mesh::create_box(w, h, d, solid);
+        let label = format!("create_box({:?}, {:?}, {:?}, {})", w, h, d, solid);
+        let verts = m.vertices().to_vec();
+        let faces = m.faces().to_vec();
+        let desc = || format!("{} vertices {:?} faces {:?}", label, verts.iter().map(|q| (q.x, q.y, q.z)).collect::<Vec<_>>(), faces);
+        r.check(faces.len() == 12 && verts.len() == 8 && m.is_solid() == solid, "generators: a box has 8 vertices and 12 faces", desc);
+        // the 8 corners {0,w} x {0,h} x {0,d}, each once (bit for bit: no arithmetic is needed to produce them)
+        let mut corner: Vec<u8> = verts.iter().map(|q| {
+            let bit = |x: f64, s: f64| if x == 0.0 { 0u8 } else if x == s { 1 } else { 9 };
+            let (i, j, k) = (bit(q.x, w), bit(q.y, h), bit(q.z, d));
+            if i > 1 || j > 1 || k > 1 { 99 } else { i + 2 * j + 4 * k }
+        }).collect();
+        let unit: Vec<(f64, f64, f64)> = corner.iter().map(|&c| ((c & 1) as f64, ((c >> 1) & 1) as f64, ((c >> 2) & 1) as f64)).collect();
+        corner.sort();
+        let corners_ok = corner == vec![0u8, 1, 2, 3, 4, 5, 6, 7];
+        r.check(corners_ok, "generators: the box vertices are the 8 corners of [0,w] x [0,h] x [0,d], each once", desc);
+        let wound = generated_topology(r, &m, &label, true);
+        if !(corners_ok && wound && faces.len() == 12) { continue; }
+        // outward: evaluated on the unit cube (dividing x, y, z by w, h, d > 0 keeps the sign of every triple product): exact
+        let mut out_ok = true;
+        let mut axes: Vec<(usize, f64)> = Vec::new();
+        for f in faces.iter() {
+            let (a, b, c) = (unit[f[0] as usize], unit[f[1] as usize], unit[f[2] as usize]);
+            let (u, v) = ((b.0 - a.0, b.1 - a.1, b.2 - a.2), (c.0 - a.0, c.1 - a.1, c.2 - a.2));
+            let n = (u.1 * v.2 - u.2 * v.1, u.2 * v.0 - u.0 * v.2, u.0 * v.1 - u.1 * v.0);
+            let g = ((a.0 + b.0 + c.0) / 3.0 - 0.5, (a.1 + b.1 + c.1) / 3.0 - 0.5, (a.2 + b.2 + c.2) / 3.0 - 0.5);
+            if !(n.0 * g.0 + n.1 * g.1 + n.2 * g.2 > 0.0) { out_ok = false; }
+            // the face lies in one side of the cube: its outward axis
+            let ax = if a.0 == b.0 && b.0 == c.0 { (0usize, 2.0 * a.0 - 1.0) } else if a.1 == b.1 && b.1 == c.1 { (1, 2.0 * a.1 - 1.0) } else if a.2 == b.2 && b.2 == c.2 { (2, 2.0 * a.2 - 1.0) } else { out_ok = false; (0, 0.0) };
+            axes.push(ax);
+        }
+        r.check(out_ok, "generators: the stored winding of every face gives an outward normal", desc);
+        // the library's normals, where parry can normalise them (|cross product| well above f64::EPSILON)
+        if w * h > 1e-12 && h * d > 1e-12 && w * d > 1e-12 {
+            let lib_ok = match m.get_face_normals() {
+                Err(_) => false,
+                Ok(ns) => ns.len() == 12 && ns.iter().zip(axes.iter()).all(|(n, (ax, s))| (0..3).all(|k| close(n[k], if k == *ax { *s } else { 0.0 }))),
+            };
+            r.check(lib_ok, "generators: get_face_normals returns one outward unit normal per face", desc);
+        }
+    } } } }
+    // ---- create_cylinder: radius x height x steps
+    let radii = [1.0e-6, 0.001, 0.5, 1.0, 2.5, 1.0e3, 1.0e6];
+    let heights = [1.0e-6, 0.5, 1.0, 3.0, 1.0e4, 1.0e8];
+    let mut cases: Vec<(f64, f64, usize)> = Vec::new();
+    for &rad in radii.iter() { for &h in heights.iter() { for steps in [3usize, 4, 5, 6, 7, 8, 9, 16, 17, 31, 32, 33, 64, 65, 100, 255, 256, 257] { cases.push((rad, h, steps)); } } }
+    for steps in 3..=70usize { cases.push((1.0, 1.0, steps)); cases.push((2.5, 0.75, steps)); }
+    for steps in [1000usize, 1001, 2049, 4096, 4097, 32768, 32769] { cases.push((1.0, 1.0, steps)); cases.push((0.25, 300.0, steps)); }
+    for (k, &(rad, h, steps)) in cases.iter().enumerate() {
+        p.at(&[41, k as i64, steps as i64]);
+        r.case();
+        let m = Mesh::create_cylinder(rad, h, steps);
+        let label = format!("create_cylinder({:?}, {:?}, {})", rad, h, steps);
+        let verts = m.vertices();
+        let faces = m.faces();
+        let desc = || format!("{} ({} vertices, {} faces: {:?} ..)", label, verts.len(), faces.len(), &faces[..faces.len().min(4)]);
+        r.check(faces.len() == 2 * steps && verts.len() == 2 * steps, "generators: a cylinder wall has 2*steps vertices and 2*steps faces", desc);
+        if !generated_topology(r, &m, &label, false) { continue; }
+        // an open tube: one component, two rims of `steps` edges each, every other edge in two faces
+        let o = mesh_oracle(faces);
+        r.check(o.class_g && o.wound && o.comp.len() == 1 && o.boundary.len() == 2 * steps && o.max_count == 2, "generators: the cylinder wall is one edge-connected tube whose only free edges are the two rims of `steps` edges", || format!("{}: {} components, {} free edges", desc(), o.comp.len(), o.boundary.len()));
+        // outward, on the unit cylinder: x, y measured from the mean of the vertices and divided by the largest distance
+        // from it, z from the lowest vertex and divided by the z extent (translation and positive scaling keep the sign of
+        // every triple product; nothing is demanded of the radius and height themselves)
+        let nvf = verts.len() as f64;
+        let (cx, cy) = (verts.iter().map(|q| q.x).sum::<f64>() / nvf, verts.iter().map(|q| q.y).sum::<f64>() / nvf);
+        let zmin = verts.iter().map(|q| q.z).fold(f64::INFINITY, f64::min);
+        let zext = verts.iter().map(|q| q.z).fold(f64::NEG_INFINITY, f64::max) - zmin;
+        let rmax = verts.iter().map(|q| ((q.x - cx).powi(2) + (q.y - cy).powi(2)).sqrt()).fold(0.0, f64::max);
+        let s = |q: &Point3| ((q.x - cx) / rmax, (q.y - cy) / rmax, (q.z - zmin) / zext);
+        let mut out_ok = rmax > 0.0 && zext > 0.0;
+        let mut min_w = f64::INFINITY;
+        for f in faces.iter() {
+            let (a, b, c) = (s(&verts[f[0] as usize]), s(&verts[f[1] as usize]), s(&verts[f[2] as usize]));
+            let (u, v) = ((b.0 - a.0, b.1 - a.1, b.2 - a.2), (c.0 - a.0, c.1 - a.1, c.2 - a.2));
+            let n = (u.1 * v.2 - u.2 * v.1, u.2 * v.0 - u.0 * v.2, u.0 * v.1 - u.1 * v.0);
+            let g = ((a.0 + b.0 + c.0) / 3.0, (a.1 + b.1 + c.1) / 3.0);
+            let (ln, lg) = ((n.0 * n.0 + n.1 * n.1 + n.2 * n.2).sqrt(), (g.0 * g.0 + g.1 * g.1).sqrt());
+            // the normal of the stored winding makes an angle of less than ~84 degrees with the radial direction at the face
+            if !(ln > 0.0 && lg > 0.0 && (n.0 * g.0 + n.1 * g.1) > 0.1 * ln * lg) { out_ok = false; }
+            let (pa, pb, pc) = (verts[f[0] as usize], verts[f[1] as usize], verts[f[2] as usize]);
+            min_w = min_w.min((pb - pa).cross(&(pc - pa)).norm());
+        }
+        r.check(out_ok, "generators: the stored winding of every face gives an outward normal", desc);
+        if min_w > 1e-12 {
+            let lib_ok = match m.get_face_normals() {
+                Err(_) => false,
+                Ok(ns) => ns.len() == faces.len() && ns.iter().zip(faces.iter()).all(|(n, f)| {
+                    let (a, b, c) = (verts[f[0] as usize], verts[f[1] as usize], verts[f[2] as usize]);
+                    let g = (a.coords + b.coords + c.coords) / 3.0;
+                    let radial = ((g.x - cx).powi(2) + (g.y - cy).powi(2)).sqrt();
+                    close(n.norm(), 1.0) && (n.x * (g.x - cx) + n.y * (g.y - cy)) / radial > 0.5
+                }),
+            };
+            r.check(lib_ok, "generators: get_face_normals returns one outward unit normal per face", desc);
+        }
+        // the mesh clauses on the generated tube (all sizes): edge table, two rim loops, one patch, patch boundaries
+        if steps > 16 && (k % 7 == 0 || steps >= 1000) {
+            check_mesh_large(r, p, &verts.to_vec(), &faces.to_vec(), &label, false);
+            let loops = m.calc_edges().map(|e| e.boundary_loops.iter().map(|l| l.len()).collect::<Vec<_>>()).unwrap_or_default();
+            r.check(loops == vec![steps, steps] && m.get_patches().len() == 1, "generators: the cylinder wall is one patch with two rim loops of `steps` vertices", || format!("{} loops {:?}", label, loops));
+        }
+    }
+}
+
+// ------------------------------------------------------------------------------------------------ (q) edge lengths: more magnitudes
+fn run_far_meshes_w5(r: &mut Report, p: &Progress) {
+    let mut k = 0i64;
+    // tiny and huge extents at the origin; moderate pitches very far from the origin (1e7 .. 1e8)
+    let mut cases: Vec<(f64, (f64, f64, f64))> = Vec::new();
+    for pitch in [1.0e-9, 1.0e-7, 1024.0, 1.0e6] { cases.push((pitch, (0.0, 0.0, 0.0))); }
+    for pitch in [0.0009765625, 0.3, 1.0, 1024.0] { cases.push((pitch, (1.0e8, -1.0e8, 1.0e7))); cases.push((pitch, (-33554432.0, 16777216.0, 1.0e8))); }
+    for (pitch, off) in cases { for (nx, ny) in [(1u32, 1u32), (4, 3)] {
+        k += 1; p.at(&[50, k]);
+        let (v, f) = far_grid(nx, ny, pitch, off);
+        check_lengths(r, &v, &f, &format!("{}x{} grid of pitch {:?} at offset {:?}", nx, ny, pitch, off));
+    } }
+    // more than 1000 / 4096 / 10000 edges, near and far
+    for (nx, ny) in [(40u32, 30u32), (64, 64)] { for (pitch, off) in [(1.0, (0.0, 0.0, 0.0)), (1.0e-4, (1500.0, -2000.0, 350.0)), (0.3, (123456.789, -98765.4321, 5000.5))] {
+        k += 1; p.at(&[51, k]);
+        let (v, f) = far_grid(nx, ny, pitch, off);
+        check_lengths(r, &v, &f, &format!("{}x{} grid of pitch {:?} at offset {:?}", nx, ny, pitch, off));
+    } }
+    // generators with asymmetric tiny / huge sizes, moved far away
+    for off in [(0.0, 0.0, 0.0), (1.0e7, -1.0e7, 5.0e6)] { for (a, b, c) in [(1.0e-3, 2.0, 3.0e3), (5.0e3, 0.25, 0.125), (7.0, 7.0, 7.0)] {
+        k += 1; p.at(&[52, k]);
+        let bx = Mesh::create_box(a, b, c, true);
+        let v: Vec<Point3> = bx.vertices().iter().map(|q| Point3::new(q.x + off.0, q.y + off.1, q.z + off.2)).collect();
+        check_lengths(r, &v, &bx.faces().to_vec(), &format!("create_box({:?}, {:?}, {:?}) moved by {:?}", a, b, c, off));
+        let cy = Mesh::create_cylinder(a.max(0.5), c, 1025);
+        let v: Vec<Point3> = cy.vertices().iter().map(|q| Point3::new(q.x + off.0, q.y + off.1, q.z + off.2)).collect();
+        check_lengths(r, &v, &cy.faces().to_vec(), &format!("create_cylinder({:?}, {:?}, 1025) moved by {:?}", a.max(0.5), c, off));
+    } }
+}
+
 pub fn run() -> Option<Report> {
     let mut r = Report::new("chained_indices: every list of <= 4 pairs over vertex ids 0..5 (406901 lists); clusters_from_sparse: every subset of a 2x2x2 block, a 3x3x1 slab and a 2x2x3 block of voxels (4864 sets, each twice); Mesh::calc_edges / get_patches / get_patch_boundary_points: every ordered list of <= 3 faces over 5 vertices that is consistently wound and free of vertex-only contacts, 11 larger hand-built meshes of that class in 6 storage variants each, create_box (4 sizes) and create_cylinder (steps 3..=16, 2 sizes), repeated 2-3 times per mesh for hash order; every <= 3 face list with an edge in three faces must be refused; each group under a progress watchdog (6 s per input). Vertex-only contacts and inconsistent winding: see ROUND 4 and D7 below (patch boundaries are not evaluated on them). Edge lengths to relative 1e-12 on grids (1x1, 4x3, 12x9), boxes and 12-step cylinders of pitch 5e-6 .. 1 at 5 offsets up to 1e6 from the origin. get_patches on ANY face list (partition and edge-connected patches always, maximality when no directed edge occurs twice): all lists of <= 2 faces over 5 vertices x 64 calls, 3-face lists starting with [0,1,2] / [0,2,1] x 8 calls, box / cylinder / grid / strip / tetrahedron with single faces, pairs, every other and all faces flipped x 64 calls. chained_indices on 1..12 separate chains / closed loops of 1..9 links in 4 storage orders. ROUND 4: the hand-built meshes (+ a disk around the LAST vertex, a 4x4 grid) also with the vertex numbering reversed and with the interior vertices numbered last (lexicographically last edge interior); calc_edges on INCONSISTENTLY wound meshes whose boundary edges still give every boundary vertex one successor and one predecessor (closed surfaces with any faces flipped, disks with flipped interior faces): every such ordered list of 3 faces over 5 vertices and of 4 faces over 4 vertices, boxes / tetrahedron / octahedron / both / 3x3, 4x4, 5x3-with-holes grids with single faces, pairs, every 2nd, every 3rd and the first half of the faces flipped, in 2 storage variants: edge table produced (not Err), each undirected edge once with its length, face -> edges, boundary loops; LARGE vertex ids: two vertex-disjoint faces over a 70000-vertex list (3 first faces x every ordered triple of 8 ids on both sides of 2^16, incl. ids that collide when two ids are packed with a 16-bit shift) and two separate 40-face strips on ids 0.. and {65500, 65530, 65536, 69000}..: all clauses of the mesh group (edge table, patches, patch boundaries); D7 (repaired): calc_edges returns Err (and returns: 6 s watchdog) when no edge is in more than two faces but the boundary edges do not form closed loops - bow-ties, two grids sharing a corner, fins touching a grid at one vertex, 3x3 / 5x3-with-holes grids, a cylinder and an open box with single faces, pairs, every 2nd and the first half of the faces flipped (those outside class G), and every ordered list of 2 / 3 faces over 5 vertices outside class G");
     guarded(&mut r, "chaining", "pairs (flattened)", run_chains);
@@ -1053,5 +1790,14 @@ pub fn run() -> Option<Report> {
     // LAST: on a tree without the D7 repair the first input of this group never returns
     guarded(&mut r, "mesh (boundary edges do not form closed loops)", "faces (flattened)", run_open_boundaries);
     guarded(&mut r, "chaining", "k chains / links / closed / storage order", run_many_chains);
+    // WAVE 5
+    guarded(&mut r, "index_vec", "case id", run_index_vec);
+    guarded(&mut r, "chaining (long lists, large ids)", "case id", run_long_chains);
+    guarded(&mut r, "voxels (large coordinates, large sets)", "case id / voxels", run_far_voxels);
+    guarded(&mut r, "mesh (thousands of faces)", "case id", run_large_meshes);
+    guarded(&mut r, "mesh (total verdict)", "faces (flattened)", run_total_small);
+    guarded(&mut r, "mesh (degenerate faces)", "faces (flattened)", run_degenerate);
+    guarded(&mut r, "generators (every parameter)", "case id", run_generator_params);
+    guarded(&mut r, "edge lengths (more magnitudes)", "case id", run_far_meshes_w5);
     Some(r)
 }
